@@ -17,7 +17,7 @@ RULE = (
     "question first. Oracle (differential + invariant): the outcome of every operation (value repr or exception "
     "class) equals the outcome of the same operation asked first on a database freshly rebuilt from the accepted "
     "registrations; the full registry snapshot (all public getters, both conversion functions sampled) is identical "
-    "before and after every read-only or failing step. Plus an exhaustive sweep of the shipped table: every category x (first and last listed unit, first and last unit of its type that is not listed) through the object-level uses (GetValidUnits of Scalar / Array / FixedArray / FractionScalar - the returned list is then edited by the caller -, IsValid, CreateCopy, ObtainQuantity, CheckCategoryUnit, +), after each of which the valid and default units of every category of that quantity type and the type's units read as before. Non-trivial = a query preceded by a failing lookup of the same "
+    "before and after every read-only or failing step. Plus an exhaustive sweep of the shipped table: every category x (first and last listed unit, first and last unit of its type that is not listed) through the object-level uses (GetValidUnits of Scalar / Array / FixedArray / FractionScalar - the returned list is then edited by the caller -, IsValid, CreateCopy, ObtainQuantity, CheckCategoryUnit, +), after each of which the valid and default units of every category of that quantity type and the type's units read as before. Registrations include a unit whose symbol differs only by case from one that was looked up with FindUnitCase. Non-trivial = a query preceded by a failing lookup of the same "
     "key, by an object-level GetValidUnits, or by a later registration; key = (database kind, query kind, preceding event kind, category/unit asked)."
 )
 ASSUMPTIONS = ["quantities and value objects obtained before a registration keep what they captured (documented design); only fresh queries are compared"]
@@ -347,6 +347,9 @@ def seq_strategy(base_kind, max_len):
             focus_regs = [
                 ["unit", ft if ft != "Q" else "L", "focus unit", fu, "%f*100.0", "%f/100.0", None],
                 ["base", ft if ft != "Q" else "L", "focus base", fu2],
+                # a unit whose symbol differs from the focus unit's only by case (FindUnitCase must then see both)
+                ["unit", ft if ft != "Q" else "L", "case twin", fu.upper() if fu.upper() != fu else fu.capitalize(), "%f*7.0", "%f/7.0", None],
+                ["unit", "L", "case twin of km", "Km", "%f*7.0", "%f/7.0", None],
                 ["cat", fc, {"quantity_type": ft if ft != "Q" else "L"}],
                 ["cat", fc, {"quantity_type": "T", "override": True}],
                 ["cat", fc, {"quantity_type": "L", "override": True, "valid_units": ["m"], "default_unit": "m", "min_value": 0.0, "max_value": 10.0}],
@@ -359,9 +362,10 @@ def seq_strategy(base_kind, max_len):
             # scenario: the same question before and after the registration that should change its answer
             c0 = draw(st.sampled_from(["L", "depth"]))
             u0 = draw(st.sampled_from(["cm", "km", "lbmol", "mm"]))
-            kinds2 = ["CheckCategoryUnit", "ObtainQuantity", "Scalar", "ScalarGetValidUnits", "ArrayGetValidUnits"]
+            kinds2 = ["CheckCategoryUnit", "ObtainQuantity", "Scalar", "ScalarGetValidUnits", "ArrayGetValidUnits", "FindUnitCase"]
             ask = [["query", [draw(st.sampled_from(kinds2)), c0, u0]] for _ in range(draw(st.integers(1, 2)))]
             ask += [["query", [draw(st.sampled_from(["Convert", "GetValue", "CreateCopy"])), c0, "m", u0]]] * draw(st.integers(0, 1))
+            ask += [["query", ["FindUnitCase", c0, draw(st.sampled_from(["km", u0]))]]] * draw(st.integers(0, 1))
             # the forms that leave the category out resolve it through the unit (separate cache keys)
             ask += [["query", [draw(st.sampled_from(["ScalarUnitOnly", "ObtainQuantityUnitOnly"])), draw(st.sampled_from(["m", u0]))]]]
             change = draw(
@@ -371,6 +375,9 @@ def seq_strategy(base_kind, max_len):
                         ["cat", c0, {"quantity_type": "T", "override": True}],
                         ["cat", c0, {"quantity_type": "L", "override": True, "valid_units": ["m"], "default_unit": "m", "min_value": 0.0, "max_value": 2.0}],
                         ["cat", c0, {"quantity_type": "L", "override": True, "default_unit": "km"}],
+                        # a second unit whose symbol differs only by case from one that was looked up case-insensitively
+                        ["unit", "L", "case twin", "Km", "%f*7.0", "%f/7.0", None],
+                        ["unit", "L", "case twin", u0.capitalize(), "%f*7.0", "%f/7.0", None],
                     ]
                 )
             )
